@@ -15,6 +15,16 @@ class Inconclusive(Exception):
     pass
 
 
+class ExecCrash(Exception):
+    """The executor process died (signal / abort) while executing one particular request."""
+
+    def __init__(self, index, request, how):
+        super().__init__("executor died (%s) on request %d" % (how, index))
+        self.index = index
+        self.request = request
+        self.how = how
+
+
 class BuildViolation(Exception):
     def __init__(self, msg, log):
         super().__init__(msg)
@@ -117,7 +127,7 @@ def build_bins(backend, bins, profile="dev"):
     return res
 
 
-def run_exec(path, requests, timeout=EXEC_TIMEOUT):
+def run_exec(path, requests, timeout=EXEC_TIMEOUT, _locate=True):
     """Feeds the requests (dicts; 'id' is assigned here) to an executor; returns responses in order."""
     lines = []
     for i, r in enumerate(requests):
@@ -130,7 +140,16 @@ def run_exec(path, requests, timeout=EXEC_TIMEOUT):
     except subprocess.TimeoutExpired:
         raise Inconclusive("executor watchdog fired: %s" % path)
     if p.returncode != 0:
-        raise Inconclusive("executor %s exited with %s: %s" % (os.path.basename(path), p.returncode, p.stderr[-500:].decode("utf-8", "replace")))
+        err = p.stderr[-500:].decode("utf-8", "replace")
+        died = p.returncode < 0 or "overflowed its stack" in err or "fatal runtime error" in err or p.returncode in (134, 139)
+        if died and _locate and len(requests) >= 1:
+            how = ("signal %d" % -p.returncode) if p.returncode < 0 else ("exit %d" % p.returncode)
+            if "overflowed its stack" in err:
+                how += ", stack overflow"
+            idx = _locate_crash(path, requests, timeout)
+            if idx is not None:
+                raise ExecCrash(idx, requests[idx], how)
+        raise Inconclusive("executor %s exited with %s: %s" % (os.path.basename(path), p.returncode, err))
     out = p.stdout.decode("utf-8").splitlines()
     if len(out) != len(requests):
         raise Inconclusive("protocol desync: %d requests, %d responses" % (len(requests), len(out)))
@@ -143,6 +162,31 @@ def run_exec(path, requests, timeout=EXEC_TIMEOUT):
             raise Inconclusive("harness error: " + r["panic"])
         resps.append(r)
     return resps
+
+
+def _crashes(path, requests, timeout):
+    try:
+        run_exec(path, requests, timeout, _locate=False)
+        return False
+    except Inconclusive:
+        return True
+
+
+def _locate_crash(path, requests, timeout):
+    """Smallest prefix of the request list that kills the executor -> index of the culprit
+    (requests are independent and the executors are deterministic). None if not reproducible."""
+    if not _crashes(path, requests, timeout):
+        return None
+    lo, hi = 0, len(requests)          # invariant: prefix[:lo] survives, prefix[:hi] dies
+    while hi - lo > 1:
+        mid = (lo + hi) // 2
+        if _crashes(path, requests[:mid], timeout):
+            hi = mid
+        else:
+            lo = mid
+    idx = hi - 1
+    # the culprit must also die on its own
+    return idx if _crashes(path, [requests[idx]], timeout) else None
 
 
 # ---------------------------------------------------------------------------
@@ -353,6 +397,33 @@ def run_cases(part, bin_path, cases, judge, jctx, chunk=40000):
         for c in sub:
             spans.append((len(reqs), len(c["reqs"])))
             reqs.extend(c["reqs"])
-        resps = run_exec(bin_path, reqs)
+        crashes = 0
+        while True:
+            try:
+                resps = run_exec(bin_path, reqs)
+                break
+            except ExecCrash as e:
+                # the process died inside one request: that operation did not return - a violation of the
+                # property whose workload this is; drop the case and go on with the others
+                crashes += 1
+                ci = next(i for i, (o, n) in enumerate(spans) if o <= e.index < o + n)
+                c = sub[ci]
+                part.evals += 1
+                sig = {"kind": "process_abort", "backend": jctx.get("backend"), "op": e.request.get("op"),
+                       "class": {"kind": "process_abort", "backend": jctx.get("backend"), "op": e.request.get("op"),
+                                 "where": e.request.get("ty") or [e.request.get("l"), e.request.get("o"), e.request.get("r")]}}
+                part.violation(sig, "%s: the executor process died (%s) while executing %s - the operation neither returned nor panicked" % (
+                    str(jctx.get("module", "")).upper(), e.how, {k: v for k, v in e.request.items() if k != "table"}),
+                    {"module": jctx.get("module"), "backend": jctx.get("backend"), "bin": os.path.basename(bin_path), "case": dict(c, reqs=[e.request])})
+                if crashes > 12:
+                    raise Inconclusive("executor keeps dying (more than 12 crashing requests in one chunk)")
+                del sub[ci]
+                reqs, spans = [], []
+                for cc in sub:
+                    spans.append((len(reqs), len(cc["reqs"])))
+                    reqs.extend(cc["reqs"])
+                if not sub:
+                    resps = []
+                    break
         for c, (o, n) in zip(sub, spans):
             judge(part, c, resps[o:o + n], jctx)
